@@ -28,7 +28,7 @@ INPLACE = {"iadd", "isub", "imul", "ipow", "itruediv"}
 def FLOORS(tier):
     q = tier == "quick"
     f = {"expected-keyerror": 100 if q else 3000, "value-checks": 3000 if q else 10 ** 5,
-         "alias:self-operand": 60 if q else 2000, "operand:raw-dict": 300 if q else 10 ** 4, "typed-coefficients": 60}
+         "alias:self-operand": 60 if q else 2000, "operand:raw-dict": 300 if q else 10 ** 4, "typed-coefficients": 60, "division:exact-rational": 15}
     for o in OPS:
         for ts in TYPES.values():
             for t in ts:
@@ -151,6 +151,11 @@ def case(ctx, rng, idx):
             bdesc = ("exp", expo)
         elif op in ("truediv", "itruediv"):
             divc = rng.choice([2, -4, 0.5, -1])
+            from fractions import Fraction as _F
+            if len(a) and all(isinstance(v, _F) for v in a.values()):
+                # exact rational coefficients stay exact under division by an integer: divisors that floats cannot invert
+                divc = rng.choice([3, 7, -6, 10, 49])
+                ctx.cat("division:exact-rational")
             exp = pa.scale(1 / frac(divc))
             bdesc = ("div", divc)
         elif op == "neg":
@@ -260,11 +265,15 @@ def case(ctx, rng, idx):
         if canonical is not None and not (r == canonical):
             fail("%s:not-equal-to-same-function" % op, "result %r != model built from the same function %r" % (dict(r), dict(canonical)))
             return
+        terminal = divc in (3, 7, -6, 10, 49)      # non-dyadic rationals must not mix with floats afterwards (float sums inexact)
         if op in INPLACE:
             if r is not a:
                 fail("%s:not-in-place" % op, "in-place operator returned a different object")
                 return
             refs[i] = exp
+            if terminal:
+                pool[i], refs[i], d_ = new_model(tn)
+                prog.append(["replace", i, d_])
             if okind != "self" and isinstance(b, dict) and snapshot(b) != sb:
                 fail("%s:right-operand-mutated" % op, "right operand changed")
                 return
@@ -278,7 +287,9 @@ def case(ctx, rng, idx):
             if isinstance(b, dict) and snapshot(b) != sb:
                 fail("%s:other-operand-mutated" % op, "other operand changed from %r to %r" % (sb, snapshot(b)))
                 return
-            if len(pool) < 6:
+            if terminal:
+                pass
+            elif len(pool) < 6:
                 pool.append(r)
                 refs.append(exp)
             else:
